@@ -80,9 +80,9 @@ def fam_C09(tier, seed):
         q["keep"] = True
         ps.append(q)
     # a user-defined subclass of a buffer class behaves like its base class
-    for conc, simultaneous in itertools.product((False, True), (False, True)):
+    for conc, simultaneous, lo in itertools.product((False, True), (False, True), (0, None)):
         b = PB(3, tag="buffer-subclass")
-        bf = b.buffer("Silo", concurrent=conc, initial=2, lower=0)
+        bf = b.buffer("Silo", concurrent=conc, initial=5, lower=lo)
         b.p["buffers"][bf - 1]["subclass"] = True
         a = b.task("A", "F", dur=1)
         c = b.task("B", "F", dur=1)
